@@ -178,25 +178,10 @@ const freshDefOther = "struct Only { int32 a; }\n"
 // shrinkInput minimises the input bytes (drop chunks, then single bytes) while the
 // signature stays the same.
 func (c *Ctx) shrinkInput(sc *Scenario, v *Violation) *Replay {
-	rp := &Replay{Property: c.N.Batch.Property, Scenario: *sc, Violation: *v}
-	rp.Violation.Property = c.N.Batch.Property
-	for i := range c.N.Batch.Known {
-		k := &c.N.Batch.Known[i]
-		if k.Match(rp) {
-			c.Count("known:"+k.ID, 1)
-			if !seenSig["known:"+k.ID] {
-				seenSig["known:"+k.ID] = true
-				rp.Known = k.ID
-				return rp
-			}
-			return nil
-		}
+	rp, fresh := c.gate(sc, v, nil)
+	if !fresh {
+		return rp
 	}
-	c.Count("violations_raw", 1)
-	if seenSig[v.Signature] {
-		return nil
-	}
-	seenSig[v.Signature] = true
 	budget := 800
 	try := func(in []byte, at int) bool {
 		if budget <= 0 {
